@@ -441,6 +441,11 @@ func (c *FnCtx) staticCall(fr *Frame, st *State, x *ssa.Call, callee *ssa.Functi
 		return
 	}
 	fc := c.eng.ld.byFn[callee]
+	if fc != nil && fc.Pure && (fr.ghost || c.noObl > 0) && callee != c.top {
+		// mention of a pure function inside a contract clause: its summary
+		c.setResult(fr, x, c.pureSummary(st, callee, args))
+		return
+	}
 	onStack := false
 	for _, f := range c.stack {
 		if f == callee {
@@ -510,7 +515,18 @@ func (c *FnCtx) callContract(fr *Frame, st *State, x *ssa.Call, callee *ssa.Func
 			}
 		}
 	}
-	res := c.freshResults(st, &x.Call, "r!"+callee.Name())
+	var res []*Term
+	if fc.Pure {
+		// a function declared pure is a deterministic function of its arguments, the maps reachable from them and the
+		// package options it reads: every call site (and every mention in a contract) gets the same uninterpreted summary
+		res = c.pureSummary(pre, callee, args)
+		for i, r := range res {
+			c.typeFacts(st, r, callee.Signature.Results().At(i).Type())
+		}
+		c.trusted["declared pure (result is a function of arguments, Map content and options; determinism across map iteration orders is not proved here): "+fc.Name] = true
+	} else {
+		res = c.freshResults(st, &x.Call, "r!"+callee.Name())
+	}
 	if wroteGlobal {
 		c.assumePkgInv(st)
 	}
@@ -758,4 +774,34 @@ func (e *Engine) registerMapHeaps(t types.Type) {
 	e.heapSorts["Mdom:"+k] = ArrOf(SInt, ArrOf(ks, SBool))
 	e.heapSorts["Msel:"+k] = ArrOf(SInt, ArrOf(ks, vs))
 	e.heapSorts["Mlen:"+k] = ArrOf(SInt, SInt)
+}
+
+// pureSummary: uninterpreted function application standing for the results of a pure function.
+func (c *FnCtx) pureSummary(st *State, fn *ssa.Function, args []*Term) []*Term {
+	ts := c.eng.ts
+	// conservatively a function of: the Map heaps, every scalar package variable of the package (the options), the arguments
+	c.eng.registerMapHeaps(types.NewMap(types.Typ[types.String], types.NewInterfaceType(nil, nil)))
+	var uargs []*Term
+	for _, h := range []string{"Mdom:map[string]interface{}", "Msel:map[string]interface{}", "Mlen:map[string]interface{}"} {
+		uargs = append(uargs, c.heap(st, h, c.eng.heapSorts[h]))
+	}
+	var gs []*ssa.Global
+	for _, m := range fn.Pkg.Members {
+		if g, ok := m.(*ssa.Global); ok && !strings.Contains(g.Name(), "$") {
+			if _, basic := g.Type().(*types.Pointer).Elem().Underlying().(*types.Basic); basic {
+				gs = append(gs, g)
+			}
+		}
+	}
+	sort.Slice(gs, func(i, j int) bool { return gs[i].Name() < gs[j].Name() })
+	for _, g := range gs {
+		uargs = append(uargs, c.getCell(st, c.eng.globalCell(g)))
+	}
+	uargs = append(uargs, args...)
+	n := fn.Signature.Results().Len()
+	out := make([]*Term, n)
+	for i := 0; i < n; i++ {
+		out[i] = ts.UF(fmt.Sprintf("pure!%s!%d", sanitize(fn.RelString(fn.Pkg.Pkg)), i), c.eng.tc.SortOf(fn.Signature.Results().At(i).Type()), uargs...)
+	}
+	return out
 }
